@@ -123,3 +123,50 @@ impl<W: Write> crate::Output for Output<W> {
 		self.0.flush()
 	}
 }
+
+#[cfg(feature = "verif")]
+pub(crate) mod verif {
+	use std::io::{self, BufRead, Read};
+
+	use super::{Chunker, Encoder, Encoding};
+
+	const ENCODINGS: [fn() -> Encoding; 5] = [
+		|| Encoding::Utf8,
+		|| Encoding::Utf16Big,
+		|| Encoding::Utf32Big,
+		|| Encoding::Utf16Little,
+		|| Encoding::Utf32Little,
+	];
+
+	pub(crate) fn encoding_detect(prefix: &[u8]) -> u8 {
+		match Encoding::detect(prefix) {
+			Encoding::Utf8 => 0,
+			Encoding::Utf16Big => 1,
+			Encoding::Utf32Big => 2,
+			Encoding::Utf16Little => 3,
+			Encoding::Utf32Little => 4,
+		}
+	}
+
+	pub(crate) fn encoder_new<'r, R: BufRead + 'r>(reader: R, encoding: u8) -> Box<dyn Read + 'r> {
+		Box::new(Encoder::new(reader, ENCODINGS[usize::from(encoding)]()))
+	}
+
+	pub(crate) fn encoder_from_reader<'r, R: BufRead + 'r>(
+		reader: R,
+	) -> io::Result<Box<dyn Read + 'r>> {
+		Ok(Box::new(Encoder::from_reader(reader)?))
+	}
+
+	pub(crate) fn chunks<R: Read>(reader: R) -> Vec<io::Result<(String, bool)>> {
+		let mut chunks = vec![];
+		for doc in Chunker::new(reader) {
+			let failed = doc.is_err();
+			chunks.push(doc.map(|doc| (doc.content().to_owned(), doc.is_collection())));
+			if failed {
+				break;
+			}
+		}
+		chunks
+	}
+}
